@@ -31,7 +31,8 @@ def main():
         c = (m.get("checks") or {}).get(p, {})
         conf = m.get("confirmed", {})
         valid = conf.get("demo_without_patch", "").startswith("test result: ok") and "ok." not in conf.get("demo_with_patch", "ok.") and conf.get("suite_with_patch", "").endswith(" 0 failed")
-        rows.append(dict(id=sid, prop=p, what=short(m.get("what", ""), 150), exit=c.get("exit"), by=c.get("detected_by", ""), ob=short(c.get("first_refuted_obligation", ""), 70), valid=valid,
+        others = "; ".join("%s: exit %s (%s)" % (q, cc.get("exit"), cc.get("detected_by", "")) for q, cc in sorted((m.get("checks") or {}).items()) if q != p)
+        rows.append(dict(id=sid, prop=p, what=short(m.get("what", ""), 150), exit=c.get("exit"), by=c.get("detected_by", ""), ob=short(c.get("first_refuted_obligation", ""), 70), valid=valid, others=others,
                          base=conf.get("demo_without_patch", "")[13:40], mut=short(conf.get("demo_with_patch", ""), 40), suite=conf.get("suite_with_patch", "")))
     rows.sort(key=lambda r: (r["prop"], r["id"]))
     lines = ["# Seeded changes: what each check reports", "",
@@ -40,22 +41,36 @@ def main():
              "`./check <property> --repo <worktree>` was run. `detected by`: **proof** = a contract clause / safety obligation of the extracted code was",
              "refuted by Verus (or the Kani harness); **standin** = the bounded witness family found a failing input on the real code; **infra** = the change",
              "restructured the code so that extraction or a rewrite rule no longer applied (verifier undecided: the witness search decides).", "",
-             "| id | property | change | exit | detected by | first refuted obligation |", "|---|---|---|---|---|---|"]
+             "SUMMARY", "",
+             "| id | property | change | exit | detected by | first refuted obligation | other properties' checks |", "|---|---|---|---|---|---|---|"]
     for r in rows:
-        lines.append("| %s | %s | %s | %s | %s | %s |" % (r["id"], r["prop"], r["what"].replace("|", "/"), r["exit"], r["by"], ("`%s`" % r["ob"].replace("|", "/")) if r["ob"] else ""))
+        lines.append("| %s | %s | %s | %s | %s | %s | %s |" % (r["id"], r["prop"], r["what"].replace("|", "/"), r["exit"], r["by"], ("`%s`" % r["ob"].replace("|", "/")) if r["ob"] else "", r["others"]))
     bad = [r for r in rows if not r["valid"]]
     if bad:
         lines += ["", "Not valid at the current HEAD (demo no longer passes without the patch, or no longer fails with it - the code they were written against has been repaired since):", ""]
         for r in bad:
             lines.append("* %s: demo without patch `%s`, with patch `%s`, suite `%s`" % (r["id"], r["base"], r["mut"], r["suite"]))
-    open(os.path.join(SEEDED, "RESULTS.md"), "w").write("\n".join(lines) + "\n")
+    stale = sorted(d for d in os.listdir(SEEDED) if os.path.isdir(os.path.join(SEEDED, d)) and d not in set(r["id"] for r in rows))
+    if stale:
+        lines += ["", "Not re-run (the patch no longer applies to the current HEAD - the lines it changes were rewritten by a fix: commit; the directory keeps the result recorded when it was made): " + ", ".join(stale)]
     ok = [r for r in rows if r["valid"]]
     cnt = collections.Counter()
     per = collections.defaultdict(collections.Counter)
     for r in ok:
-        k = "missed (exit %s)" % r["exit"] if r["exit"] != "1" else ("proof" if "proof" in r["by"] else ("standin after infra/undecided" if ("infra" in r["by"] or "undecided" in r["by"]) else "standin only"))
+        k = "not detected" if r["exit"] != "1" else ("proof" if "proof" in r["by"] else ("standin after infra/undecided" if ("infra" in r["by"] or "undecided" in r["by"]) else "standin only"))
         cnt[k] += 1
         per[r["prop"]][k] += 1
+    cols = ["proof", "standin after infra/undecided", "standin only", "not detected"]
+    summ = ["%d seeded changes, %d valid at the current HEAD of /repo (the others were written against code that has been repaired since, see the end)." % (len(rows), len(ok)), "",
+            "| property | " + " | ".join(cols) + " |", "|---|" + "---|" * len(cols)]
+    for p in sorted(per):
+        summ.append("| %s | " % p + " | ".join(str(per[p][c]) for c in cols) + " |")
+    summ.append("| **all** | " + " | ".join("**%d**" % cnt[c] for c in cols) + " |")
+    nd = [r for r in ok if r["exit"] != "1"]
+    if nd:
+        summ += ["", "Not detected by the check of the property they were written for: " + ", ".join("%s (%s)" % (r["id"], r["others"] or "no other check run") for r in nd) + " - see DESIGN.md 9.4 for the reason in each case."]
+    lines[lines.index("SUMMARY")] = "\n".join(summ)
+    open(os.path.join(SEEDED, "RESULTS.md"), "w").write("\n".join(lines) + "\n")
     print(len(rows), "seeds,", len(ok), "valid at HEAD:", dict(cnt))
     for p in sorted(per):
         print(" ", p, dict(per[p]))
